@@ -353,7 +353,8 @@ pub fn run(tier: Tier, _replay: Option<String>) -> i32 {
     }
     let vals_target = [0.6, 0.8, 0.95];
     let vals_k = [0.5, 0.75, 1.0];
-    let vals_t0 = [0.0, 10.0, 100.0];
+    // (whole and fractional offsets: an offset that is truncated somewhere only shows on the latter)
+    let vals_t0 = [0.0, 0.25, 0.75, 2.5, 10.0, 10.5, 100.0];
     let vals_gamma = [0.01, 0.05, 1.0];
     let vals_max = [0.1, std::f64::consts::PI, 100.0];
     let vals_init = [1e-3, 0.1, 10.0];
@@ -393,7 +394,7 @@ pub fn run(tier: Tier, _replay: Option<String>) -> i32 {
             }
         }
     }
-    report.bounds = json!({"sequence_length_default_params": l_default, "parameter_sets": 729, "jobs": jobs.len()});
+    report.bounds = json!({"sequence_length_default_params": l_default, "parameter_sets": vals_target.len() * vals_k.len() * vals_t0.len() * vals_gamma.len() * vals_max.len() * vals_init.len(), "jobs": jobs.len()});
     mc_core::par_for_each(&jobs, |_, j| {
         let mut p = Partial::new();
         match j {
